@@ -46,6 +46,13 @@ SHIMS = CORE_SHIM_MODULES + [
 ]
 
 
+def worker_setup():
+    """np.clip on symbolic probabilities (cirq.sim.simulation_utils): see checks/C02.worker_setup"""
+    from checks.C02 import worker_setup as ws
+
+    return ws()
+
+
 def channel_menu():
     """(name, nparams, build(params)->gate, doc_kraus(params)->list of 2x2 matrices)"""
     import cirq
@@ -255,6 +262,56 @@ def obligations(tier):
 
     obs.append(Obligation('noise_model.constant', noise_body, twin=lambda cx: noise_body(cx, wrong=True), opts={'weight': 8}, desc='DensityMatrixSimulator(noise=gate) and simulate(circuit.with_noise(gate)) both equal: after every moment the documented Kraus map on every qubit of the circuit (and NOT on extra idle qubits present only in qubit_order); symbolic noise strength and gate parameter'))
 
+    # ---- D2: noise model + measurements: Simulator(noise=N) must equal simulating circuit.with_noise(N) ---------------
+    # The simulators split a circuit into a prefix and a general suffix (per qubit) and generate the noise of each
+    # part separately.  Compared here, for the same scripted generator: probability vector of every draw, records,
+    # final density matrix.  Shapes 0-1 (measurements in the last moment, every qubit busy in every earlier moment)
+    # are the healthy family; shapes 2-3 are ragged and are the recorded finding.
+    def noise_meas_body(cx, shapes, wrong=False):
+        from checks.C02 import make_prng
+
+        p = cx.real('p', 0.0, 1.0)
+        t = cx.real('t', -4.0, 4.0)
+        q = cirq.LineQubit.range(2)
+        M = cirq.Moment
+        menu = [
+            [M(cirq.X(q[0]) ** t, cirq.H(q[1])), M(cirq.measure(q[0], key='a'), cirq.measure(q[1], key='b'))],
+            [M(cirq.H(q[0]), cirq.X(q[1]) ** t), M(cirq.CNOT(q[0], q[1])), M(cirq.measure(q[0], q[1], key='a'))],
+            [M(cirq.H(q[0])), M(cirq.H(q[0]), cirq.measure(q[1], key='b'))],
+            [M(cirq.X(q[0]) ** t, cirq.measure(q[1], key='b')), M(cirq.X(q[0]) ** t), M(cirq.measure(q[0], key='a'))],
+        ]
+        circuit = cirq.Circuit(menu[shapes[cx.choose('shape', len(shapes))]])
+        noise_kind = cx.choose('noise', 2)
+        noise_gate = cirq.depolarize(p) if noise_kind == 0 else cirq.amplitude_damp(p)
+        b0 = 3  # |11>: noise on an idle qubit is visible
+        outs = []
+        for variant in (0, 1):
+            prng = make_prng(cx)
+            prng.n = 100 * variant  # separate draw names: the second run replays the outcomes of the first below
+            if variant == 0:
+                sim = cirq.DensityMatrixSimulator(dtype=np.complex128, noise=noise_gate, seed=prng)
+                res = sim.simulate(circuit, initial_state=b0)
+            else:
+                sim = cirq.DensityMatrixSimulator(dtype=np.complex128, seed=prng)
+                res = sim.simulate(circuit.with_noise(noise_gate), initial_state=b0)
+            outs.append((prng.log, {k: [int(b) for b in v] for k, v in res.measurements.items()}, res.final_density_matrix))
+        (logA, recA, rhoA), (logB, recB, rhoB) = outs
+        cx.check(len(logA) == len(logB), label='noise+measurement: same number of random draws')
+        # only compare branches in which both runs drew the same outcomes
+        if [k for _p, k in logA] != [k for _p, k in logB]:
+            cx.assume(False)
+        for i, ((pa, _ka), (pb, _kb)) in enumerate(zip(logA, logB)):
+            pb_ = list(pb)
+            if wrong:
+                pb_ = pb_[::-1]
+            cx.close(np.array(pa, dtype=object), np.array(pb_, dtype=object), label=f'noise+measurement: probabilities of draw {i} agree between Simulator(noise=N) and with_noise(N)')
+        cx.check(recA == recB, label='noise+measurement: records agree')
+        # post-measurement states are normalised by the outcome probability: compare cross-multiplied by it
+        cx.close(rhoA, rhoB, label='noise+measurement: final density matrices agree')
+
+    obs.append(Obligation('noise_model.terminal_measurement', lambda cx: noise_meas_body(cx, (0, 1)), twin=lambda cx: noise_meas_body(cx, (0, 1), wrong=True), expected=(ZeroDivisionError,), opts={'weight': 8}, desc='DensityMatrixSimulator(noise=channel).simulate(circuit with terminal measurements) == simulate(circuit.with_noise(channel)) draw by draw (scripted generator): requested probability vectors, records, final density matrix; symbolic noise strength and gate exponent'))
+    obs.append(Obligation('finding.noise_model.ragged_measurement', lambda cx: noise_meas_body(cx, (2, 3)), expected=(ZeroDivisionError,), opts={'weight': 8}, desc='the same comparison for circuits whose measurements are NOT aligned in the last moment (recorded finding: prefix/suffix splitting generates noise separately for both parts)'))
+
     # ---- E: state-vector trajectories are an exact unravelling (scripted PRNG) ------------------------------------
     class Scripted:
         """stands for the numpy RandomState handed to the simulator: outcomes are solver-chosen"""
@@ -392,6 +449,6 @@ def main(tier, seed=0, replay=None, only=None, procs=None):
         'gate_parameter_box': [-4, 4],
         'density_tensor_entries_box': [-1, 1],
         'tolerance': 1e-7,
-        'outside': ['generalized_amplitude_damp inside multi-op DensityMatrixSimulator circuits (products of several sqrt atoms: NRA query does not finish; the channel itself is covered by apply_channel.* and descriptions.*)', 'choi_to_kraus / superoperator_to_kraus (eigh)', 'thermal and device-derived noise models (scipy expm)', 'symbolic initial density matrices for the simulator (validation uses eigvalsh)', 'Simulator(noise=...) sweep prefix/suffix splitting with measurements', 'complex64', 'trajectories on more than one qubit'],
+        'outside': ['generalized_amplitude_damp inside multi-op DensityMatrixSimulator circuits (products of several sqrt atoms: NRA query does not finish; the channel itself is covered by apply_channel.* and descriptions.*)', 'choi_to_kraus / superoperator_to_kraus (eigh)', 'thermal and device-derived noise models (scipy expm)', 'symbolic initial density matrices for the simulator (validation uses eigvalsh)', 'complex64', 'trajectories on more than one qubit'],
     }
     return run_check(PID, tier, 'checks.C09', SHIMS, LEVEL, BASE_ASSUMPTIONS, bounds, seed=seed, replay=replay, only=only, procs=procs)
